@@ -34,7 +34,10 @@ func genAuthE2ECase(t *rapid.T) AuthE2ECase {
 func TestC10E2E(t *testing.T) {
 	rapid.Check(t, func(rt *rapid.T) {
 		c := genAuthE2ECase(rt)
-		st, err := runAuthE2E(c)
+		st, err := pbt.Safe(runAuthE2E, c)
+		if st == nil {
+			st = &authE2EStats{}
+		}
 		labels := []string{fmt.Sprintf("methods:%v", c.Methods)}
 		pbt.Count("C10", "e2e_challenges", int64(st.Challenged))
 		pbt.Count("C10", "e2e_accepted", int64(st.Accepted))
